@@ -22,7 +22,8 @@ H0 = "name a\nversion 0.5\n\n"     # template without a target, and with a versi
 FORMS = ["{P}", "-{P}", "2*{P}", "{P}+1", "2*{P}-1", "{P}/2", "1-{P}", "0.1*{P}", "0.75"]
 GATES = [("G", [0]), ("H", [1]), ("K", [0, 1]), ("G", [2]), ("K", [1, 2]), ("G", [1]), ("K", [1, 0])]
 VALUE_CLASSES = {"dyadic": [0.5, -1.25], "integer": [2, 7], "generic": [0.1, 1 / 3], "generic2": [1e-3, 3.141592653589793], "large": [123.456, -0.7],
-                 "negative": [-1 / 3, -3.141592653589793], "negative2": [-0.321, -4.821], "negative-integer": [-3, -11]}
+                 "negative": [-1 / 3, -3.141592653589793], "negative2": [-0.321, -4.821], "negative-integer": [-3, -11],
+                 "small": [-4.1234567891234e-05, 3.3333333333333e-07], "huge": [6.0221407612345e+23, -1.6021766341234e+19]}
 # two-argument operations: a constant before / after the parametrised argument, and two parametrised arguments
 FORMS2 = [("0.45", "{P}"), ("0.785", "2*{P}-1"), ("{P}", "0.75"), ("{P}/2", "0.1"), ("1", "-{P}"), ("-0.5", "{P}+1"), ("2", "0.1*{P}")]
 
@@ -97,10 +98,10 @@ def check_match(t, q, names, inst_args, label):
     for o in back.operations:
         got[(o["op"], tuple(o["modes"]))].append([complex(x) for x in o.get("args", [])])
     for k in want:
-        num = lambda lst: [(round(z.real, 7), round(z.imag, 7)) for z in lst]
+        num = lambda lst: [(float("%.6e" % z.real), float("%.6e" % z.imag)) for z in lst]
         a = sorted(want[k], key=num)
         b = sorted(got.get(k, []), key=num)
-        if len(a) != len(b) or not all(len(x) == len(y) and all(abs(u - v) <= 1e-9 * max(1.0, abs(u)) for u, v in zip(x, y)) for x, y in zip(a, b)):
+        if len(a) != len(b) or not all(len(x) == len(y) and all(abs(u - v) <= 1e-9 * abs(u) + 1e-300 for u, v in zip(x, y)) for x, y in zip(a, b)):
             return ("returned-values-do-not-reproduce", "%s: returned %r gives %r, program has %r" % (label, r, dict(got), dict(want)))
     return None
 
